@@ -76,7 +76,7 @@ func c14Exec(c c14Case, x *pbt.Ctx) error {
 	if err != nil {
 		return fmt.Errorf("HARNESS: cannot start node: %v", err)
 	}
-	defer n.Stop()
+	defer n.Close()
 	e := w.P.Epoch
 
 	mutAt := map[int][]c14Mut{}
